@@ -42,8 +42,10 @@ def run(ctx):
     for mod, extra in [
         (PROPS, ["RotoV.Lemmas.Mir", "RotoV.Model.Mir", "RotoV.Model.MirFrozen", "RotoV.Generated.C03Dumps"]),
         (PROPS_GLUE, ["RotoV.Lemmas.Glue", "RotoV.Model.Glue", "RotoV.Generated.GlueLoops"]),
-        (PROPS_VARIANT, ["RotoV.Lemmas.MirVariant", "RotoV.Model.MirVariant", "RotoV.Generated.C03Dumps"]),
-        (PROPS_RUNTIME, ["RotoV.Model.ListOwn", "RotoV.Generated.ListOwn"]),
+        (PROPS_VARIANT, ["RotoV.Lemmas.MirVariant", "RotoV.Model.MirVariant"]),
+        (PROPS_VARIANT + "Now", ["RotoV.Generated.C03Dumps"]),
+        (PROPS_RUNTIME, ["RotoV.Model.ListOwn"]),
+        (PROPS_RUNTIME + "Now", ["RotoV.Generated.ListOwn"]),
     ]:
         ctx.prove(mod, extra_modules=extra)
         theorems += ctx.coverage.get("theorems", [])
